@@ -306,13 +306,27 @@ def harvest_literals():
 def render() -> str:
     table = extract_assert()
     _, tree = parse("assertions.py")
-    check_mk_assert_handler(find_func(tree.body, "mk_assert_handler"))
-    cond_ops = extract_cond_ops(find_func(tree.body, "mk_cond"))
-    offs = extract_offsets(find_func(tree.body, "vm_assert_binary"), find_func(tree.body, "vm_assert_unary"))
-    exceptions_hierarchy()
-    pins = source_pins()
+    # Shape checks of the hand-mirrored code are NOT fatal: a failed check is emitted as `sourceProblems` (the theorem
+    # `C13.source_shape_ok` then fails) while the generated file stays buildable with the values the model was written
+    # against, so that the Model / Driver keep working and the harness can look for a concrete failing input.
+    problems = []
+
+    def guard(what, fn, default):
+        try:
+            return fn()
+        except Exception as e:  # noqa: BLE001
+            problems.append(f"{what}: {type(e).__name__}: {e}"[:300])
+            return default
+
+    guard("mk_assert_handler", lambda: check_mk_assert_handler(find_func(tree.body, "mk_assert_handler")), None)
+    cond_ops = guard("mk_cond", lambda: extract_cond_ops(find_func(tree.body, "mk_cond")), list(EXPECTED_COND_OPS))
+    offs = guard("vm_assert_binary/unary", lambda: extract_offsets(find_func(tree.body, "vm_assert_binary"), find_func(tree.body, "vm_assert_unary")),
+                 dict(off1=4, off2=36, word=32, unaryOff=4, msgIdxBinary=2, msgIdxUnary=1))
+    guard("exceptions", exceptions_hierarchy, None)
+    pins = guard("pins", source_pins, {})
     _, ctree = parse("cheatcodes.py")
-    assume_sig = int_const(find_assign(find_class(ctree, "hevm_cheat_code").body, "assume_sig").value, "assume_sig")
+    assume_sig = guard("assume_sig", lambda: int_const(find_assign(find_class(ctree, "hevm_cheat_code").body, "assume_sig").value, "assume_sig"),
+                       0x4C63E562)
 
     def b(x):
         return "true" if x else "false"
@@ -358,6 +372,8 @@ def render() -> str:
         L.append(f"def {k} : Nat := {v}")
     L.append("")
     L.append(f"/-- `hevm_cheat_code.assume_sig` -/\ndef assumeSelector : Nat := 0x{assume_sig:08X}\n")
+    L.append("/-- shape checks of the mirrored source that failed in the extractor (must be empty: `C13.source_shape_ok`) -/")
+    L.append("def sourceProblems : List String := [" + ", ".join(lean_str(x) for x in problems) + "]\n")
     L.append("/-- sha256 prefixes of the normalised ast of the code mirrored by Model/Assertions.lean -/")
     L.append("def sourcePins : List (String × String) := [")
     L.append(",\n".join(f"  ({lean_str(k)}, {lean_str(v)})" for k, v in sorted(pins.items())))
